@@ -7,6 +7,8 @@
 //        src -> indep (wired after T and S) -> indep sink
 //   MODE 1 (wire_try_except -> try_except_node.cpp): src -> try_except( pre -> T -> post ) -> out sink / exception sink,
 //        src -> indep -> indep sink
+//   MODE 2 (map_ with per-key error capture, map_node.cpp write_map_error): keysrc (keys 0,1) -> map_( (key, x): pre -> TK ) ->
+//        per-key dep sink; exception_time_series(map) -> per-key err sink;  src -> indep -> indep sink
 //   symbolic  : source payloads, source cycle deltas, T's / S's self-scheduling deltas, the SET of evaluations in which
 //               T (and S) throw (one symbolic bool per evaluation - forks where it is consulted)
 //   oracle    : neither run lets an exception escape; the twin has no error tick; run 0's error stream is exactly the
@@ -15,13 +17,13 @@
 //               times in both runs (evaluated normally again, scheduler re-armed); in evaluations that did not throw
 //               the dependent stream equals the twin's (what it shows in a throwing cycle is left open).
 #ifndef MODE
-#define MODE 0          // 0: per-node error capture, 1: try_except over a three-node sub-graph
+#define MODE 0          // 0: per-node error capture, 1: try_except over a three-node sub-graph, 2: map_ per-key capture
 #endif
 #include "hk.h"
 
 #include <hgraph/runtime/node_error.h>
 #include <hgraph/types/subgraph_wiring.h>
-#if MODE == 1
+#if MODE >= 1
 #include <hgraph/lib/std/operators/impl/higher_order_impl.h>
 #endif
 
@@ -49,13 +51,17 @@ struct Stream {
     bool overflow = false;
     void add(DateTime t, Int v) { if (n < CAP) r[n++] = Rec{t, v}; else overflow = true; }
 };
-enum StreamId : int { ST_IND = 0, ST_DEP, ST_ERR, ST_TEVAL, ST_THROWN, ST_DEP2, ST_ERR2, ST_SEVAL, ST_THROWN2, ST_PRE, ST_POST, NSTREAM };
+enum StreamId : int { ST_IND = 0, ST_DEP, ST_ERR, ST_TEVAL, ST_THROWN, ST_DEP2, ST_ERR2, ST_SEVAL, ST_THROWN2, ST_PRE, ST_POST,
+                      ST_KEVAL0, ST_KEVAL1, ST_KTHROWN0, ST_KTHROWN1, ST_KERR0, ST_KERR1, ST_KDEP0, ST_KDEP1, NSTREAM };
 Stream g_s[2][NSTREAM];
 int g_run = 0;
 
 std::int64_t g_val[NCYC], g_delta[NCYC], g_tsched[MAXE], g_val2[NCYC], g_delta2[NCYC];
 std::int64_t g_throwT[MAXE], g_throwS[NCYC];   // symbolic 0/1
 bool g_thrownT[MAXE], g_thrownS[NCYC];         // what actually happened in run 0 (concrete)
+int g_kmask[NCYC];                             // MODE 2: which keys the keyed source updates in cycle c (bit k), concrete
+std::int64_t g_kval[NCYC][2], g_throwK[2][NCYC];
+bool g_thrownK[2][NCYC];
 
 struct Src {
     static constexpr auto name = "src";
@@ -130,8 +136,82 @@ template <int STREAM, char TAG> struct ErrSink {
     }
 };
 
-#if MODE == 1
+#if MODE >= 1
 namespace ho = hgraph::stdlib::higher_order_impl_detail;
+#endif
+#if MODE == 2
+struct KeySrc {
+    static constexpr auto name = "keysrc";
+    static constexpr bool schedule_on_start = true;
+    static void eval(NodeScheduler s, State<Int> n, Out<TSD<Int, TS<Int>>> out) {
+        Int c = n.get();
+        n.set(c + 1);
+        if (c + 1 < NCYC) s.schedule(TimeDelta{g_delta2[c]});
+        if (g_kmask[c] & 1) out[Int{0}].set(g_kval[c][0]);
+        if (g_kmask[c] & 2) out[Int{1}].set(g_kval[c][1]);
+    }
+};
+// The per-key thrower: evaluation j of key k throws when g_throwK[k][j] (run 0 only).
+struct TK {
+    static constexpr auto name = "keyed_thrower";
+    static void eval(In<"key", TS<Int>> key, In<"a", TS<Int>> a, Out<TS<Int>> out, State<Int> n, DateTime now) {
+        int k = (int)key.value();
+        Int j = n.get();
+        n.set(j + 1);
+        g_s[g_run][ST_KEVAL0 + k].add(now, a.value());
+        if (g_run == 0 && j < NCYC && g_throwK[k][j] != 0) {
+            g_thrownK[k][j] = true;
+            g_s[0][ST_KTHROWN0 + k].add(now, j);
+            throw std::runtime_error(std::string("boom") + char('a' + k) + char('0' + j));
+        }
+        out.set(a.value() * 3 + 1);
+    }
+};
+struct KDepSink {
+    static constexpr auto name = "kdepsink";
+    static void eval(In<"a", TSD<Int, TS<Int>>> a, DateTime now) {
+        const TSDInputView &d = a;
+        for (const auto [k, v] : d.modified_items()) {
+            int kk = (int)k.template checked_as<Int>();
+            g_s[g_run][ST_KDEP0 + kk].add(now, v.value().template checked_as<Int>());
+        }
+    }
+};
+struct KErrSink {
+    static constexpr auto name = "kerrsink";
+    static void eval(In<"e", TSD<Int, TS<NodeError>>> e, DateTime now) {
+        const TSDInputView &d = e;
+        for (const auto [k, v] : d.modified_items()) {
+            int kk = (int)k.template checked_as<Int>();
+            std::string m = v.value().as_bundle().at("error_msg").template checked_as<Str>();
+            g_s[g_run][ST_KERR0 + kk].add(now, decode(m, char('a' + kk)));
+        }
+    }
+};
+struct KeyFn {   // WiredFn for  (key, x) -> pre -> TK
+    static WiringPortRef body(Wiring &w, Port<TS<Int>> key, Port<TS<Int>> x) {
+        auto pre = wire<Tap<ST_PRE>>(w, x);
+        return wire<TK>(w, key, pre).erased();
+    }
+    static CompiledSubGraph compile(const void *, Wiring *parent, std::span<const TSValueTypeMetaData *const> s) {
+        Wiring cw = parent ? parent->child_wiring() : Wiring{WiringKind::SubGraph};
+        Port<TS<Int>> key{cw, WiringPortRef::boundary_source(0, {}, s[0])};
+        Port<TS<Int>> x{cw, WiringPortRef::boundary_source(1, {}, s[1])};
+        WiringPortRef out = body(cw, key, x);
+        return std::move(cw).finish_subgraph(out, {s[0], s[1]});
+    }
+    static WiringPortRef wire_(const void *, Wiring &w, std::span<const WiringPortRef> a) {
+        return body(w, Port<TS<Int>>{w, a[0]}, Port<TS<Int>>{w, a[1]});
+    }
+    static const TSValueTypeMetaData *out(const void *) { return schema_descriptor<TS<Int>>::ts_meta(); }
+    static WiredFn make() {
+        static WiredFnOps ops{.wire = &wire_, .compile = &compile, .output_schema = &out};
+        WiredFn f; f.ops = &ops; f.arity = 2; f.has_output = true; f.identity = &typeid(KeyFn);
+        return f;
+    }
+};
+#endif
+#if MODE == 1
 using TryIntResult = UnNamedTSB<Field<"exception", TS<NodeError>>, Field<"out", TS<Int>>>;
 struct TryOut {
     static constexpr auto name = "try_out";
@@ -185,11 +265,18 @@ struct Top {
         auto serr = exception_time_series(s2);
         wire<ErrSink<ST_ERR2, 'S'>>(w, serr);
         wire<RecSink<ST_DEP2>>(w, s2);
-#else
+#elif MODE == 1
         WiringPortRef r = ho::wire_try_except(w, WrappedFn::make(), {s.erased()}, {}, ErrorCaptureOptions{});
         Port<TryIntResult> res{w, r};
         wire<TryOut>(w, res);
         wire<TryErr>(w, res);
+#else
+        auto d = wire<KeySrc>(w);
+        WiringPortRef m = ho::wire_map(w, Scalar<"func", WiredFn>{KeyFn::make()}, "", {d.erased()}, std::nullopt, true);
+        Port<TSD<Int, TS<Int>>> mp{w, m};
+        auto errs = exception_time_series(mp);
+        wire<KErrSink>(w, errs);
+        wire<KDepSink>(w, mp);
 #endif
         auto i = wire<Indep>(w, s);
         wire<RecSink<ST_IND>>(w, i);
@@ -226,7 +313,7 @@ bool dependent_ok(const Stream &d0, const Stream &d1, const Stream &ev, const bo
 }  // namespace
 
 extern "C" int harness_main() {
-#if MODE == 1
+#if MODE >= 1
     auto &reg = TypeRegistry::instance();
     reg.register_scalar<WiredFn>("fn");
     reg.register_scalar<stdlib::SwitchCases>("switch_cases");
@@ -240,10 +327,17 @@ extern "C" int harness_main() {
         g_val2[c] = verif_range("val2", -1000, 1000);
         g_delta2[c] = verif_range("delta2", 1, DMAX);
         g_throwS[c] = MODE == 0 ? verif_range("throwS", 0, 1) : 0;
+#if MODE == 2
+        g_kmask[c] = c == 0 ? 3 : 1 + verif_choice("kmask", 3);
+        for (int k = 0; k < 2; k++) {
+            g_kval[c][k] = verif_range("kval", -1000, 1000);
+            g_throwK[k][c] = verif_range("throwK", 0, 1);
+        }
+#endif
     }
     for (int k = 0; k < MAXE; k++) {
         g_tsched[k] = k < TSCHED ? verif_range("tsched", 0, DMAX) : 0;
-        g_throwT[k] = verif_range("throwT", 0, 1);
+        g_throwT[k] = MODE == 2 ? 0 : verif_range("throwT", 0, 1);
     }
 
     bool escaped[2] = {false, false};
@@ -263,7 +357,7 @@ extern "C" int harness_main() {
     verif_assert(!overflow, "C15.log_overflow");
     verif_assert(!escaped[0], "C15.run_continues_no_exception_escapes");
     verif_assert(!escaped[1], "C15.twin_run_completes");
-    verif_assert(g_s[1][ST_ERR].n == 0 && g_s[1][ST_ERR2].n == 0, "C15.no_error_tick_without_throw");
+    verif_assert(g_s[1][ST_ERR].n == 0 && g_s[1][ST_ERR2].n == 0 && g_s[1][ST_KERR0].n == 0 && g_s[1][ST_KERR1].n == 0, "C15.no_error_tick_without_throw");
 
     // exactly one error tick per throw, in that cycle, carrying the message (decoded evaluation number)
     verif_assert(same_stream(g_s[0][ST_ERR], g_s[0][ST_THROWN]), "C15.one_error_tick_per_throw_same_cycle_same_message");
@@ -279,9 +373,30 @@ extern "C" int harness_main() {
     verif_assert(!same_evals | dependent_ok(g_s[0][ST_DEP], g_s[1][ST_DEP], g_s[1][ST_TEVAL], g_thrownT, MAXE), "C15.output_equals_twin_when_not_throwing");
     verif_assert(dependent_ok(g_s[0][ST_DEP2], g_s[1][ST_DEP2], g_s[1][ST_SEVAL], g_thrownS, NCYC), "C15.source_output_equals_twin_when_not_throwing");
 
+#if MODE == 2
+    // keyed map: the error of key k's child appears under key k only, once per throw, in that cycle, with the message;
+    // each key's child is evaluated like the twin's and its output equals the twin's where it did not throw.
+    verif_assert(same_stream(g_s[0][ST_KERR0], g_s[0][ST_KTHROWN0]) & same_stream(g_s[0][ST_KERR1], g_s[0][ST_KTHROWN1]),
+                 "C15.map_error_under_failing_key_only_once_per_throw");
+    bool same_kevals = same_stream(g_s[0][ST_KEVAL0], g_s[1][ST_KEVAL0]) & same_stream(g_s[0][ST_KEVAL1], g_s[1][ST_KEVAL1]);
+    verif_assert(same_kevals, "C15.map_children_evaluated_at_same_times_as_twin");
+    verif_assert(!same_kevals | (dependent_ok(g_s[0][ST_KDEP0], g_s[1][ST_KDEP0], g_s[1][ST_KEVAL0], g_thrownK[0], NCYC) &
+                                 dependent_ok(g_s[0][ST_KDEP1], g_s[1][ST_KDEP1], g_s[1][ST_KEVAL1], g_thrownK[1], NCYC)),
+                 "C15.map_key_output_equals_twin_when_not_throwing");
+    {
+        int n0 = g_s[0][ST_KTHROWN0].n, n1 = g_s[0][ST_KTHROWN1].n;
+        if (n0 + n1 >= 1) verif_reach("key_child_throws");
+        if (n0 >= 1 && n1 == 0 && g_s[1][ST_KEVAL1].n >= 2) verif_reach("one_key_throws_other_key_runs");
+        if (n0 >= 1 && n1 >= 1) verif_reach("both_keys_throw");
+        bool rec = false;
+        for (int k = 0; k < 2; k++)
+            for (int j = 0; j + 1 < NCYC; j++) rec |= g_thrownK[k][j] && !g_thrownK[k][j + 1] && j + 1 < g_s[0][ST_KEVAL0 + k].n;
+        if (rec) verif_reach("key_child_normal_evaluation_after_throw");
+    }
+#endif
     // ---- reach
     int nthrow = g_s[0][ST_THROWN].n, nthrow2 = g_s[0][ST_THROWN2].n;
-    if (nthrow == 0 && nthrow2 == 0) verif_reach("no_throw");
+    if (nthrow == 0 && nthrow2 == 0 && g_s[0][ST_KTHROWN0].n == 0 && g_s[0][ST_KTHROWN1].n == 0) verif_reach("no_throw");
     if (nthrow >= 1) verif_reach("throw");
     if (g_thrownT[0]) verif_reach("throw_in_first_cycle");
     bool consecutive = false, recovered = false;
